@@ -5,6 +5,7 @@ package block
 // of its sources); evaluated over all small source lists drawn from four ULIDs.
 
 import (
+	"sort"
 	"fmt"
 	"os"
 	"strings"
@@ -88,6 +89,42 @@ func TestGovcReplay(t *testing.T) {
 			if !covered && len(msgs) < 4 {
 				msgs = append(msgs, fmt.Sprintf("group %d: block %s is hidden as a duplicate although no single block that stays was built from all of its sources", gi, child.ULID))
 			}
+		}
+	}
+	// the outcome must not depend on the listing order: twin blocks (same sources, ULIDs with the same
+	// millisecond timestamp and different entropy) listed in both orders
+	{
+		var e1, e2 [10]byte
+		e1[9], e2[9] = 1, 2
+		mk := func(ms uint64, entropy [10]byte, sources ...uint64) *metadata.Meta {
+			var id ulid.ULID
+			_ = id.SetTime(ms)
+			_ = id.SetEntropy(entropy[:])
+			m := &metadata.Meta{}
+			m.ULID = id
+			for _, s := range sources {
+				m.Compaction.Sources = append(m.Compaction.Sources, ulid.MustNew(s, nil))
+			}
+			return m
+		}
+		run := func(list []*metadata.Meta) string {
+			cp := append([]*metadata.Meta(nil), list...)
+			ch := make(chan ulid.ULID, len(cp)+1)
+			NewDeduplicateFilter(1).filterGroup(cp, ch)
+			close(ch)
+			var ids []string
+			for id := range ch {
+				ids = append(ids, id.String())
+			}
+			sort.Strings(ids)
+			return strings.Join(ids, ",")
+		}
+		a, b, c := mk(1000, e1, 1, 2), mk(1000, e2, 1, 2), mk(2000, e1, 1)
+		r1 := run([]*metadata.Meta{a, b, c})
+		r2 := run([]*metadata.Meta{b, a, c})
+		r3 := run([]*metadata.Meta{c, b, a})
+		if (r1 != r2 || r1 != r3) && len(msgs) < 4 {
+			msgs = append(msgs, fmt.Sprintf("twin blocks %s and %s (same sources, same millisecond): hidden blocks are [%s], [%s] or [%s] depending on the listing order", a.ULID, b.ULID, r1, r2, r3))
 		}
 	}
 	if len(msgs) > 0 {
